@@ -150,8 +150,10 @@ def _strip(mode):
         else:
             B.note(I, "str.strip() without argument strips ASCII white space only (Unicode spaces not modelled)")
         cs = _charset_re(chars)
-        r = z3.String(I.w.fresh("strip"))
-        a = z3.String(I.w.fresh("lead")); b = z3.String(I.w.fresh("trail"))
+        # the decomposition is unique, so result / stripped ends are FUNCTIONS of the string (same input, same term)
+        tag_ = mode + "_" + "".join(f"{ord(ch):02x}" for ch in chars)
+        fn_ = lambda nm: z3.Function(f"{nm}_{tag_}", z3.StringSort(), z3.StringSort())
+        r = fn_("strip")(s); a = fn_("lead")(s); b = fn_("trail")(s)
         one = cs
         facts = [s == z3.Concat(a, r, b), z3.InRe(a, z3.Star(cs)), z3.InRe(b, z3.Star(cs))]
         if mode in ("strip", "lstrip"):
